@@ -100,14 +100,14 @@ package parser
 
 //@ func (*Lexer).scanNewline
 //@   effects noalloc
-//@   props C06
+//@   props C06 C02
 //@   requires LexInv(l) && l.pos < len(l.input) && l.input[l.pos] == '\n'
 //@   requires Pos16(l)
 //@   ensures [inv] LexInv(l)
 //@   ensures [C08,C17:pos16] Pos16(l)
 //@   ensures [C08,C17:tokpos] PosOK(l.input, result.Pos) && PosOK(l.input, result.End)
 //@   ensures [vallen] len(result.Value) <= len(l.input)
-//@   ensures [step] l.pos == old(l.pos) + 1 && l.line == old(l.line) + 1 && l.column == 1 && l.atStart
+//@   ensures [step] l.pos == old(l.pos) + 1 && l.line == old(l.line) + 1 && l.column == 1 && l.atStart && !l.inHeader
 //@   ensures [span] result.Pos.Offset == old(l.pos) && result.End.Offset == l.pos && result.Type == TokenNewline
 //@   ensures [posvalid] result.Pos.Line >= 1 && result.Pos.Column >= 1 && result.Pos.Line <= len(l.input) + 1 && result.Pos.Column <= len(l.input) + 1
 //@   ensures [C17:tokcol] result.Pos.Column == old(l.column)
@@ -116,7 +116,7 @@ package parser
 //@   ensures [C17:delimited_extent] result.Type == TokenCode || result.Type == TokenCommodity ==> result.End.Line == result.Pos.Line && result.End.Column > result.Pos.Column && result.End.Column <= l.column
 //@   ensures [C08:tokline] result.Pos.Line == old(l.line) && l.line >= old(l.line)
 //@   ensures [C08:endvalid] result.End.Line >= 1 && result.End.Column >= 1 && result.End.Line <= len(l.input) + 1 && result.End.Column <= len(l.input) + 1
-//@   modifies l.pos, l.column, l.line, l.atStart
+//@   modifies l.pos, l.column, l.line, l.atStart, l.inHeader
 
 //@ func (*Lexer).scanComment
 //@   effects noalloc
@@ -174,9 +174,13 @@ package parser
 //@   loop 1 invariant l.pos == old(l.pos) ==> rune(l.input, l.pos) != ' ' && rune(l.input, l.pos) != '\t' && rune(l.input, l.pos) != '\n' && rune(l.input, l.pos) != '\r' && rune(l.input, l.pos) != ';' && rune(l.input, l.pos) != '@' && rune(l.input, l.pos) != '=' && rune(l.input, l.pos) != '(' && rune(l.input, l.pos) != ')' && rune(l.input, l.pos) != '[' && rune(l.input, l.pos) != ']'
 //@   loop 1 decreases len(l.input) - l.pos
 
+// A transaction header (C02: every transaction gets its verdict, so every header must be read as one): a date at the
+// start of a line opens it; until the end of the line whatever is not a status, a code, a secondary date, a pipe or a
+// comment is free text, whatever character it starts with.
+//@ pred HeaderFree(c) := c != '\n' && c != ';' && c != '(' && c != '|' && c != '=' && c != '*' && c != '!' && c != ' ' && c != '\t' && !(c >= '0' && c <= '9')
 //@ func (*Lexer).scanInLine
 //@   effects noalloc
-//@   props C06
+//@   props C06 C02
 //@   requires LexInv(l)
 //@   requires Pos16(l)
 //@   ensures [inv] LexInv(l)
@@ -195,7 +199,9 @@ package parser
 //@   ensures [C08:endvalid] result.End.Line >= 1 && result.End.Column >= 1 && result.End.Line <= len(l.input) + 1 && result.End.Column <= len(l.input) + 1
 //@   ensures [eof] result.Type == TokenEOF ==> l.pos == len(l.input)
 //@   ensures [C17:pos_at_lexeme] result.Type != TokenEOF ==> result.Pos.Offset == skipsp(l.input, old(l.pos))
-//@   modifies l.pos, l.column, l.line, l.atStart
+//@   ensures [C02:header_rest_is_text] old(l.inHeader) && result.Type != TokenEOF && result.Pos.Offset < len(l.input) && HeaderFree(l.input[result.Pos.Offset]) ==> result.Type == TokenText && (l.pos == len(l.input) || l.input[l.pos] == '\n' || l.input[l.pos] == ';' || l.input[l.pos] == '|')
+//@   ensures [C02:header_until_newline] result.Type != TokenNewline ==> l.inHeader == old(l.inHeader)
+//@   modifies l.pos, l.column, l.line, l.atStart, l.inHeader
 
 //@ pred ColGrow(l) := (l.pos == old(l.pos) && l.column == old(l.column)) || (l.pos > old(l.pos) && l.column > old(l.column))
 //@ pred Frame3(l) := l.input == old(l.input) && l.atStart == old(l.atStart) && l.line == old(l.line) && ColGrow(l)
@@ -514,7 +520,7 @@ package parser
 
 //@ func (*Lexer).scanLineStart
 //@   effects noalloc
-//@   props C06
+//@   props C06 C02
 //@   requires LexInv(l) && l.pos < len(l.input)
 //@   requires Pos16(l)
 //@   ensures [inv] LexInv(l)
@@ -532,7 +538,8 @@ package parser
 //@   ensures [C08:tokline] result.Pos.Line == old(l.line) && l.line >= old(l.line)
 //@   ensures [C08:endvalid] result.End.Line >= 1 && result.End.Column >= 1 && result.End.Line <= len(l.input) + 1 && result.End.Column <= len(l.input) + 1
 //@   ensures [eof] result.Type == TokenEOF ==> l.pos == len(l.input)
-//@   modifies l.pos, l.column, l.line, l.atStart
+//@   ensures [C02:date_opens_header] l.input[old(l.pos)] >= '0' && l.input[old(l.pos)] <= '9' ==> result.Type == TokenDate && l.inHeader
+//@   modifies l.pos, l.column, l.line, l.atStart, l.inHeader
 
 //@ func (*Lexer).Next
 //@   props C06
@@ -555,7 +562,7 @@ package parser
 //@   ensures [C08:tokline] result.Pos.Line == old(l.line) && l.line >= old(l.line)
 //@   ensures [C08:endvalid] result.End.Line >= 1 && result.End.Column >= 1 && result.End.Line <= len(l.input) + 1 && result.End.Column <= len(l.input) + 1
 //@   ensures [eof] result.Type == TokenEOF ==> l.pos == len(l.input)
-//@   modifies l.pos, l.column, l.line, l.atStart
+//@   modifies l.pos, l.column, l.line, l.atStart, l.inHeader
 
 //@ pred PosIn(q, n) := q.Line >= 1 && q.Column >= 1 && q.Line <= n + 1 && q.Column <= n + 1
 //@ pred ErrOK(p) := forall k int :: {p.errors[k]} 0 <= k && k < len(p.errors) ==> PosIn(p.errors[k].Pos, len(p.lexer.input))
@@ -571,7 +578,7 @@ package parser
 //@   ensures [inv] ParInv(p) && PFrame(p)
 //@   ensures [le] MuLe(p)
 //@   ensures [lt] old(p.current.Type) != TokenEOF ==> MuLt(p)
-//@   modifies p.current, p.lexer.pos, p.lexer.column, p.lexer.line, p.lexer.atStart
+//@   modifies p.current, p.lexer.pos, p.lexer.column, p.lexer.line, p.lexer.atStart, p.lexer.inHeader
 
 //@ func (*Parser).skipToNextLine
 //@   props C06
@@ -579,7 +586,7 @@ package parser
 //@   ensures [inv] ParInv(p) && PFrame(p)
 //@   ensures [le] MuLe(p)
 //@   ensures [lt] old(p.current.Type) != TokenEOF ==> MuLt(p)
-//@   modifies p.current, p.lexer.pos, p.lexer.column, p.lexer.line, p.lexer.atStart
+//@   modifies p.current, p.lexer.pos, p.lexer.column, p.lexer.line, p.lexer.atStart, p.lexer.inHeader
 //@   loop 1 invariant ParInv(p) && PFrame(p) && MuLe(p) && (p.current.Type != old(p.current.Type) || p.lexer.pos != old(p.lexer.pos) ==> MuLt(p))
 //@   loop 1 decreases 2 * (len(p.lexer.input) - p.lexer.pos) + ite(p.current.Type != TokenEOF, 1, 0)
 
@@ -645,13 +652,13 @@ package parser
 //@   requires ParInv(p)
 //@   ensures [inv] ParInv(p) && PFrame(p) && MuLe(p)
 //@   ensures [lt] old(p.current.Type) != TokenEOF ==> MuLt(p)
-//@   modifies p.current, p.errors, p.defaultYear, p.lexer.pos, p.lexer.column, p.lexer.line, p.lexer.atStart
+//@   modifies p.current, p.errors, p.defaultYear, p.lexer.pos, p.lexer.column, p.lexer.line, p.lexer.atStart, p.lexer.inHeader
 
 //@ func (*Parser).parseStatus
 //@   props C06
 //@   requires ParInv(p)
 //@   ensures [inv] ParInv(p) && PFrame(p) && MuLe(p)
-//@   modifies p.current, p.errors, p.defaultYear, p.lexer.pos, p.lexer.column, p.lexer.line, p.lexer.atStart
+//@   modifies p.current, p.errors, p.defaultYear, p.lexer.pos, p.lexer.column, p.lexer.line, p.lexer.atStart, p.lexer.inHeader
 
 //@ func (*Parser).parseDate
 //@   props C06
@@ -659,7 +666,7 @@ package parser
 //@   ensures [inv] ParInv(p) && PFrame(p) && MuLe(p)
 //@   ensures [date_range] result != nil ==> PosIn(result.Range.Start, len(p.lexer.input)) && PosIn(result.Range.End, len(p.lexer.input))
 //@   ensures [lt] old(p.current.Type) == TokenDate ==> MuLt(p)
-//@   modifies p.current, p.errors, p.defaultYear, p.lexer.pos, p.lexer.column, p.lexer.line, p.lexer.atStart
+//@   modifies p.current, p.errors, p.defaultYear, p.lexer.pos, p.lexer.column, p.lexer.line, p.lexer.atStart, p.lexer.inHeader
 //@   loop 1 invariant 0 <= i && ParInv(p) && PFrame(p) && MuLe(p) && (old(p.current.Type) == TokenDate ==> MuLt(p))
 //@   loop 1 decreases len(value) - i
 
@@ -673,7 +680,7 @@ package parser
 //@   ensures [commodity_range] result != nil && result.Commodity.Symbol != "" ==> PosIn(result.Commodity.Range.Start, len(p.lexer.input)) && PosIn(result.Commodity.Range.End, len(p.lexer.input))
 //@   ensures [fresh] result != nil ==> fresh(result)
 //@   ensures [C02:sign_kept] result != nil && sign == "-" ==> hasprefix(result.RawQuantity, "-")
-//@   modifies p.current, p.errors, p.defaultYear, p.lexer.pos, p.lexer.column, p.lexer.line, p.lexer.atStart
+//@   modifies p.current, p.errors, p.defaultYear, p.lexer.pos, p.lexer.column, p.lexer.line, p.lexer.atStart, p.lexer.inHeader
 
 //@ func (*Parser).parseCost
 //@   props C06
@@ -682,7 +689,7 @@ package parser
 //@   ensures [fresh] result != nil ==> fresh(result)
 //@   ensures [inv] ParInv(p) && PFrame(p) && MuLe(p)
 //@   ensures [lt] old(p.current.Type) != TokenEOF ==> MuLt(p)
-//@   modifies p.current, p.errors, p.defaultYear, p.lexer.pos, p.lexer.column, p.lexer.line, p.lexer.atStart
+//@   modifies p.current, p.errors, p.defaultYear, p.lexer.pos, p.lexer.column, p.lexer.line, p.lexer.atStart, p.lexer.inHeader
 
 //@ func (*Parser).parseBalanceAssertion
 //@   props C06
@@ -691,7 +698,7 @@ package parser
 //@   ensures [fresh] result != nil ==> fresh(result)
 //@   ensures [inv] ParInv(p) && PFrame(p) && MuLe(p)
 //@   ensures [lt] old(p.current.Type) != TokenEOF ==> MuLt(p)
-//@   modifies p.current, p.errors, p.defaultYear, p.lexer.pos, p.lexer.column, p.lexer.line, p.lexer.atStart
+//@   modifies p.current, p.errors, p.defaultYear, p.lexer.pos, p.lexer.column, p.lexer.line, p.lexer.atStart, p.lexer.inHeader
 
 // PLine: a posting starts on a line of the input (AST well-formedness that the formatter and the range builders rely on).
 //@ pred PLine(po, n) := po.Range.Start.Line >= 1 && po.Range.Start.Line <= n + 1 && PosIn(po.Account.Range.Start, n) && PosIn(po.Account.Range.End, n) && (po.Amount != nil && po.Amount.Commodity.Symbol != "" ==> PosIn(po.Amount.Commodity.Range.Start, n) && PosIn(po.Amount.Commodity.Range.End, n)) && (po.Cost != nil && po.Cost.Amount.Commodity.Symbol != "" ==> PosIn(po.Cost.Amount.Commodity.Range.Start, n) && PosIn(po.Cost.Amount.Commodity.Range.End, n)) && (po.BalanceAssertion != nil && po.BalanceAssertion.Amount.Commodity.Symbol != "" ==> PosIn(po.BalanceAssertion.Amount.Commodity.Range.Start, n) && PosIn(po.BalanceAssertion.Amount.Commodity.Range.End, n))
@@ -706,7 +713,7 @@ package parser
 //@   ensures [inv] ParInv(p) && PFrame(p) && MuLe(p)
 //@   ensures [posting_line] result != nil ==> PLine(result, len(p.lexer.input))
 //@   ensures [lt] old(p.current.Type) == TokenIndent ==> MuLt(p)
-//@   modifies p.current, p.errors, p.defaultYear, p.lexer.pos, p.lexer.column, p.lexer.line, p.lexer.atStart
+//@   modifies p.current, p.errors, p.defaultYear, p.lexer.pos, p.lexer.column, p.lexer.line, p.lexer.atStart, p.lexer.inHeader
 
 //@ func (*Parser).parseTransaction
 //@   props C06 C08
@@ -717,7 +724,7 @@ package parser
 //@   ensures [C08:tx_range] result != nil ==> TxRangeOK(result, len(p.lexer.input)) && result.Range.Start.Line == old(p.current.Pos.Line) && result.Range.End.Line == p.current.Pos.Line && result.Range.End.Column == p.current.Pos.Column
 //@   ensures [C08:description_pos] result != nil ==> (result.DescriptionPos.Line == 0 && result.DescriptionPos.Column == 0) || PosOK(p.lexer.input, result.DescriptionPos)
 //@   ensures [lt] MuLt(p)
-//@   modifies p.current, p.errors, p.defaultYear, p.lexer.pos, p.lexer.column, p.lexer.line, p.lexer.atStart
+//@   modifies p.current, p.errors, p.defaultYear, p.lexer.pos, p.lexer.column, p.lexer.line, p.lexer.atStart, p.lexer.inHeader
 //@   loop 1 invariant ParInv(p) && PFrame(p) && MuLt(p)
 //@   loop 1 invariant tx != nil && fresh(tx) && (len(tx.Postings) == 0 || fresh(tx.Postings))
 //@   loop 1 invariant forall k int :: {tx.Postings[k]} 0 <= k && k < len(tx.Postings) ==> PLine(tx.Postings[k], len(p.lexer.input))
@@ -734,7 +741,7 @@ package parser
 //@   ensures [C08:tx_ranges] forall i int :: {result.Transactions[i]} 0 <= i && i < len(result.Transactions) ==> TxRangeOK(result.Transactions[i], len(p.lexer.input))
 //@   ensures [C08:tx_ordered] forall i int, j int :: {result.Transactions[i]; result.Transactions[j]} 0 <= i && i < j && j < len(result.Transactions) ==> result.Transactions[i].Range.End.Line <= result.Transactions[j].Range.Start.Line
 //@   ensures [C08:tx_inside_document] forall i int :: {result.Transactions[i]} 0 <= i && i < len(result.Transactions) ==> result.Transactions[i].Range.End.Line <= NL(p.lexer.input)
-//@   modifies p.current, p.errors, p.defaultYear, p.lexer.pos, p.lexer.column, p.lexer.line, p.lexer.atStart
+//@   modifies p.current, p.errors, p.defaultYear, p.lexer.pos, p.lexer.column, p.lexer.line, p.lexer.atStart, p.lexer.inHeader
 //@   loop 1 invariant ParInv(p) && PFrame(p) && journal != nil && fresh(journal)
 //@   loop 1 invariant forall i int :: {journal.Transactions[i]} 0 <= i && i < len(journal.Transactions) ==> TxRangeOK(journal.Transactions[i], len(p.lexer.input)) && journal.Transactions[i].Range.End.Line <= p.current.Pos.Line
 //@   loop 1 invariant forall i int, j int :: {journal.Transactions[i]; journal.Transactions[j]} 0 <= i && i < j && j < len(journal.Transactions) ==> journal.Transactions[i].Range.End.Line <= journal.Transactions[j].Range.Start.Line
@@ -747,7 +754,7 @@ package parser
 //@   props C06
 //@   requires ParInv(p)
 //@   ensures [inv] ParInv(p) && PFrame(p) && MuLe(p)
-//@   modifies p.current, p.errors, p.defaultYear, p.lexer.pos, p.lexer.column, p.lexer.line, p.lexer.atStart
+//@   modifies p.current, p.errors, p.defaultYear, p.lexer.pos, p.lexer.column, p.lexer.line, p.lexer.atStart, p.lexer.inHeader
 //@   loop 1 invariant ParInv(p) && PFrame(p) && MuLe(p)
 //@   loop 1 decreases 2 * (len(p.lexer.input) - p.lexer.pos) + ite(p.current.Type != TokenEOF, 1, 0)
 //@   loop 2 invariant ParInv(p) && PFrame(p) && MuLe(p) && Mu(p) < atloop(1, Mu(p))
@@ -759,7 +766,7 @@ package parser
 //@   ensures [inv] ParInv(p) && PFrame(p) && MuLe(p)
 //@   ensures [kind] !typeis(result, "ast.CommodityDirective")
 //@   ensures [C08:account_range] typeis(result, "ast.AccountDirective") ==> PosIn(as(result, "ast.AccountDirective").Account.Range.Start, len(p.lexer.input)) && PosIn(as(result, "ast.AccountDirective").Account.Range.End, len(p.lexer.input))
-//@   modifies p.current, p.errors, p.defaultYear, p.lexer.pos, p.lexer.column, p.lexer.line, p.lexer.atStart
+//@   modifies p.current, p.errors, p.defaultYear, p.lexer.pos, p.lexer.column, p.lexer.line, p.lexer.atStart, p.lexer.inHeader
 //@   loop 1 invariant ParInv(p) && PFrame(p) && MuLe(p)
 //@   loop 1 decreases 2 * (len(p.lexer.input) - p.lexer.pos) + ite(p.current.Type != TokenEOF, 1, 0)
 
@@ -769,7 +776,7 @@ package parser
 //@   ensures [inv] ParInv(p) && PFrame(p) && MuLe(p)
 //@   ensures [kind] !typeis(result, "ast.AccountDirective")
 //@   ensures [C08:commodity_range] typeis(result, "ast.CommodityDirective") && as(result, "ast.CommodityDirective").Commodity.Symbol != "" ==> PosIn(as(result, "ast.CommodityDirective").Commodity.Range.Start, len(p.lexer.input)) && PosIn(as(result, "ast.CommodityDirective").Commodity.Range.End, len(p.lexer.input))
-//@   modifies p.current, p.errors, p.defaultYear, p.lexer.pos, p.lexer.column, p.lexer.line, p.lexer.atStart
+//@   modifies p.current, p.errors, p.defaultYear, p.lexer.pos, p.lexer.column, p.lexer.line, p.lexer.atStart, p.lexer.inHeader
 //@   loop 1 invariant ParInv(p) && PFrame(p) && MuLe(p)
 //@   loop 1 decreases 2 * (len(p.lexer.input) - p.lexer.pos) + ite(p.current.Type != TokenEOF, 1, 0)
 
@@ -778,7 +785,7 @@ package parser
 //@   requires ParInv(p)
 //@   ensures [other_kind] !typeis(result, "ast.AccountDirective") && !typeis(result, "ast.CommodityDirective")
 //@   ensures [inv] ParInv(p) && PFrame(p) && MuLe(p)
-//@   modifies p.current, p.errors, p.defaultYear, p.lexer.pos, p.lexer.column, p.lexer.line, p.lexer.atStart
+//@   modifies p.current, p.errors, p.defaultYear, p.lexer.pos, p.lexer.column, p.lexer.line, p.lexer.atStart, p.lexer.inHeader
 //@   loop 1 invariant ParInv(p) && PFrame(p) && MuLe(p)
 //@   loop 1 decreases 2 * (len(p.lexer.input) - p.lexer.pos) + ite(p.current.Type != TokenEOF, 1, 0)
 
@@ -787,21 +794,21 @@ package parser
 //@   requires ParInv(p)
 //@   ensures [other_kind] !typeis(result, "ast.AccountDirective") && !typeis(result, "ast.CommodityDirective")
 //@   ensures [inv] ParInv(p) && PFrame(p) && MuLe(p)
-//@   modifies p.current, p.errors, p.defaultYear, p.lexer.pos, p.lexer.column, p.lexer.line, p.lexer.atStart
+//@   modifies p.current, p.errors, p.defaultYear, p.lexer.pos, p.lexer.column, p.lexer.line, p.lexer.atStart, p.lexer.inHeader
 
 //@ func (*Parser).parseDefaultCommodityDirective
 //@   props C06
 //@   requires ParInv(p)
 //@   ensures [other_kind] !typeis(result, "ast.AccountDirective") && !typeis(result, "ast.CommodityDirective")
 //@   ensures [inv] ParInv(p) && PFrame(p) && MuLe(p)
-//@   modifies p.current, p.errors, p.defaultYear, p.lexer.pos, p.lexer.column, p.lexer.line, p.lexer.atStart
+//@   modifies p.current, p.errors, p.defaultYear, p.lexer.pos, p.lexer.column, p.lexer.line, p.lexer.atStart, p.lexer.inHeader
 
 //@ func (*Parser).parseYearDirective
 //@   props C06
 //@   requires ParInv(p)
 //@   ensures [other_kind] !typeis(result, "ast.AccountDirective") && !typeis(result, "ast.CommodityDirective")
 //@   ensures [inv] ParInv(p) && PFrame(p) && MuLe(p)
-//@   modifies p.current, p.errors, p.defaultYear, p.lexer.pos, p.lexer.column, p.lexer.line, p.lexer.atStart
+//@   modifies p.current, p.errors, p.defaultYear, p.lexer.pos, p.lexer.column, p.lexer.line, p.lexer.atStart, p.lexer.inHeader
 
 //@ func (*Parser).parseDirective
 //@   props C06 C08
@@ -809,7 +816,7 @@ package parser
 //@   ensures [inv] ParInv(p) && PFrame(p) && MuLe(p)
 //@   ensures [C08:directive_ranges] DirOK(result, len(p.lexer.input))
 //@   ensures [lt] old(p.current.Type) != TokenEOF ==> MuLt(p)
-//@   modifies p.current, p.errors, p.defaultYear, p.lexer.pos, p.lexer.column, p.lexer.line, p.lexer.atStart
+//@   modifies p.current, p.errors, p.defaultYear, p.lexer.pos, p.lexer.column, p.lexer.line, p.lexer.atStart, p.lexer.inHeader
 
 // Ghost attributes of a parsed journal (C11): the text it was parsed from and the parse errors returned with it.
 // They are defined by Parse for the fresh journal it returns and never change afterwards.
